@@ -1,6 +1,8 @@
 package eng
 
 import (
+	"path/filepath"
+	"go/ast"
 	"fmt"
 	"go/token"
 	"go/types"
@@ -27,6 +29,7 @@ type Obligation struct {
 	seeded  bool
 	ground  bool // seeded, and residual user quantifiers dropped
 	groundLevel int
+	famSlice bool // keep only definitions about the goal's heap components
 	caseSub *mergeCase
 	Block   *ssa.BasicBlock // block of the program point (nil: unknown)
 	// result
@@ -140,6 +143,8 @@ type debugBinding struct {
 	Block *ssa.BasicBlock
 	Idx   int
 	Addr  bool
+	Obj   types.Object
+	Def   bool // the reference is the left-hand side of an assignment: its value may be the one before the assignment
 }
 
 func NewGen(p *Program, fn *ssa.Function, c *Contract) *Gen {
@@ -860,15 +865,106 @@ func (g *Gen) Run() error {
 
 func (g *Gen) collectDebug() {
 	g.debugVals = map[string][]debugBinding{}
+	// identifiers that are assigned to (left-hand sides): go/ssa records for them the
+	// value the variable had before the assignment once the variable is lifted
+	lhs := map[token.Pos]bool{}
+	if syn := g.Fn.Syntax(); syn != nil {
+		mark := func(e ast.Expr) {
+			if id, ok := e.(*ast.Ident); ok {
+				lhs[id.Pos()] = true
+			}
+		}
+		ast.Inspect(syn, func(n ast.Node) bool {
+			switch x := n.(type) {
+			case *ast.AssignStmt:
+				for _, e := range x.Lhs {
+					mark(e)
+				}
+			case *ast.IncDecStmt:
+				mark(x.X)
+			case *ast.RangeStmt:
+				if x.Key != nil {
+					mark(x.Key)
+				}
+				if x.Value != nil {
+					mark(x.Value)
+				}
+			case *ast.ValueSpec:
+				for _, id := range x.Names {
+					lhs[id.Pos()] = true
+				}
+			}
+			return true
+		})
+	}
 	for _, b := range g.Fn.Blocks {
 		for i, in := range b.Instrs {
 			if d, ok := in.(*ssa.DebugRef); ok {
 				if obj := d.Object(); obj != nil {
-					g.debugVals[obj.Name()] = append(g.debugVals[obj.Name()], debugBinding{V: d.X, Block: b, Idx: i, Addr: d.IsAddr})
+					g.debugVals[obj.Name()] = append(g.debugVals[obj.Name()], debugBinding{V: d.X, Block: b, Idx: i, Addr: d.IsAddr, Obj: obj, Def: d.Expr != nil && lhs[d.Expr.Pos()]})
 				}
 			}
 		}
 	}
+}
+
+// reachesAvoiding: b can be reached from a successor of a (or from a itself when
+// a != avoid) along edges without entering block avoid.
+func (g *Gen) reachesAvoiding(a, b, avoid *ssa.BasicBlock) bool {
+	seen := map[*ssa.BasicBlock]bool{}
+	var rec func(x *ssa.BasicBlock) bool
+	rec = func(x *ssa.BasicBlock) bool {
+		if x == avoid || seen[x] {
+			return false
+		}
+		if x == b {
+			return true
+		}
+		seen[x] = true
+		for _, s := range x.Succs {
+			if rec(s) {
+				return true
+			}
+		}
+		return false
+	}
+	if a == avoid {
+		for _, s := range a.Succs {
+			if s == b && b != avoid {
+				return true
+			}
+			if rec(s) {
+				return true
+			}
+		}
+		return false
+	}
+	return rec(a)
+}
+
+// reaches: block b can be reached from block a (along any edges, a == b included).
+func (g *Gen) reaches(a, b *ssa.BasicBlock) bool {
+	if a == b {
+		return true
+	}
+	seen := map[*ssa.BasicBlock]bool{}
+	var rec func(x *ssa.BasicBlock) bool
+	rec = func(x *ssa.BasicBlock) bool {
+		if x == b {
+			return true
+		}
+		if seen[x] {
+			return false
+		}
+		seen[x] = true
+		for _, s := range x.Succs {
+			if rec(s) {
+				return true
+			}
+		}
+		return false
+	}
+	return rec(a)
 }
 
 func (g *Gen) initState() *State {
@@ -927,6 +1023,14 @@ func (g *Gen) runOnce() error {
 	// global axioms about ghost functions (trusted; listed in evidence)
 	if !g.quiet {
 		for _, ax := range g.P.Axioms {
+			// an axiom stated in a package's contract file is local to that package
+			// (it characterises a ghost function that other packages see opaquely)
+			if strings.HasSuffix(ax.File, "_verif.go") && g.Fn.Pkg != nil {
+				rel := strings.TrimPrefix(filepath.Dir(ax.File), g.P.RepoDir+"/")
+				if !strings.HasSuffix(g.Fn.Pkg.Pkg.Path(), "/"+rel) {
+					continue
+				}
+			}
 			sca := g.specCtxVars(st, st, map[string]Val{})
 			t, err := sca.boolTerm(ax.E)
 			if err != nil {
